@@ -184,6 +184,36 @@ def long_sequence(r, n):
     return tuple(r.choice(pool) for _ in range(n))
 
 
+CUSTOM_GLYPHMAP = '''
+"""glyph-map generator used by the C10 workload: every second glyph gets no codepoints, names are its own"""
+from absl import app
+from absl import flags
+from nanoemoji.glyphmap import GlyphMapping
+from nanoemoji import codepoints
+from nanoemoji import util
+from pathlib import Path
+
+FLAGS = flags.FLAGS
+flags.DEFINE_string("output_file", "-", "Output filename")
+
+
+def main(argv):
+    input_files = util.expand_ninja_response_files(argv[1:])
+    by_stem = {}
+    for f in input_files:
+        p = Path(f)
+        by_stem.setdefault(p.stem, [None, None])[0 if p.suffix == ".svg" else 1] = p
+    with util.file_printer(FLAGS.output_file) as print:
+        for idx, (stem, files) in enumerate(by_stem.items()):
+            cps = () if idx % 2 == 1 else tuple(codepoints.from_filename(stem))
+            print(GlyphMapping(files[0], files[1], cps, "custom_name_%d" % idx).csv_line())
+
+
+if __name__ == "__main__":
+    app.run(main)
+'''
+
+
 def gen_names_case(seed, idx):
     r = gen.rng(seed, "c10", "names", idx)
     fmt = gen.pick_format(r, 0.7)
@@ -224,14 +254,25 @@ def gen_names_case(seed, idx):
         argv = ["config.toml"]
         user_config = "config.toml"
     rs = gen.rng(seed, "c10", "names", idx, "sched")
-    ops.append({"op": "invoke", "cwd": ".", "argv": argv, "build_dir": "build", "label": "build", "sched": gen.sched(rs), "final": True})
+    custom_gm = (not adversarial) and r.random() < 0.12
+    env = None
+    if custom_gm:
+        ops.append({"op": "write", "path": "$SIDE/gm/cpless_glyphmap.py", "content": "text:" + CUSTOM_GLYPHMAP})
+        argv = ["--glyphmap_generator", "cpless_glyphmap"] + argv
+        env = {"PYTHONPATH": "$SIDE/gm"}
+    inv = {"op": "invoke", "cwd": ".", "argv": argv, "build_dir": "build", "label": "build", "sched": gen.sched(rs), "final": True}
+    if env:
+        inv["env"] = env
+    ops.append(inv)
     cid = "c10-%d-n%d" % (seed, idx)
     job = {"id": cid + ".j0", "root_id": "c10/%d/n%d" % (seed, idx), "hashseed": H(seed, "c10n", idx) % 4294967296,
            "clock_seed": idx, "readdir_seed": H(seed, "c10n", idx, "rd") % (1 << 31), "keep_trace": True, "ops": ops}
     stems = {os.path.basename(p)[:-4]: list(c) for p, _, c in items}
+    if custom_gm:
+        opts["glyphmap_generator"] = "cpless_glyphmap"
     return {"id": cid, "jobs": [job], "meta": {"kind": "names", "fmt": fmt, "vf": False, "expected": dict(opts), "user_config": user_config,
                                                "stems": stems, "paths": sorted(p for p, _, _ in items), "expect_build": not adversarial,
-                                               "adversarial": adversarial, "delivery": delivery, "masters": None, "axes": None}}
+                                               "adversarial": adversarial, "delivery": delivery, "masters": None, "axes": None, "custom_gm": custom_gm}}
 
 
 def gen_cases(seed, tier, scale=1.0):
@@ -341,7 +382,7 @@ def monitors(inv, meta, root_hint=None):
             counts["names"] += 1
             src = g["svg"] or g["png"]
             stem = os.path.basename(src).rsplit(".", 1)[0]
-            if meta.get("stems") and stem in meta["stems"] and meta["stems"][stem] != g["cps"]:
+            if meta.get("stems") and not meta.get("custom_gm") and stem in meta["stems"] and meta["stems"][stem] != g["cps"]:
                 out.append({"class": "handoff-mismatch", "detail": {"what": "codepoints recovered from the file name differ from the encoded sequence",
                                                                     "step": "glyphmap", "file": stem, "sent": meta["stems"][stem], "got": g["cps"]}})
             if not GLYPH_NAME_RE.match(g["name"]):
